@@ -673,7 +673,7 @@ func (x *Exec) evalBinary(e gcl.Binary, c *evalCtx) (typed, error) {
 }
 
 func (x *Exec) evalCall(e gcl.Call, c *evalCtx) (typed, error) {
-	if e.Fun == "called" || e.Fun == "callres" {
+	if e.Fun == "called" || e.Fun == "callres" || e.Fun == "callarg" {
 		return x.evalCallRef(e, c)
 	}
 	if e.Fun == "atloop" && len(e.Args) == 1 { // atloop(e): the value of e when the innermost enclosing loop was entered
@@ -1030,6 +1030,26 @@ func (x *Exec) evalCallRef(e gcl.Call, c *evalCtx) (typed, error) {
 	res, done := c.st.callRes[instr]
 	if e.Fun == "called" {
 		return tv(smt.BoolLit(done), types.Typ[types.Bool]), nil
+	}
+	if e.Fun == "callarg" { // callarg(F, n, k): the k-th explicit argument of the latest execution of call n of F
+		if len(e.Args) != 3 {
+			return typed{}, fmt.Errorf("callarg needs an argument index")
+		}
+		kLit, ok := e.Args[2].(gcl.IntLit)
+		if !ok {
+			return typed{}, fmt.Errorf("callarg: argument index must be a literal")
+		}
+		k, _ := strconv.Atoi(kLit.Val)
+		pt := instr.Common().Signature().Params()
+		if k >= pt.Len() {
+			return typed{}, fmt.Errorf("callarg: %s has %d parameters", name, pt.Len())
+		}
+		as := c.st.callArgs[instr]
+		if !done || k >= len(as) {
+			v := x.ctx.Fresh("nocall", x.sortOf(pt.At(k).Type()))
+			return tv(v, pt.At(k).Type()), nil
+		}
+		return tv(as[k], pt.At(k).Type()), nil
 	}
 	if len(e.Args) != 3 {
 		return typed{}, fmt.Errorf("callres needs a result index")
